@@ -196,20 +196,23 @@ Definition ex_follow : list op :=
 Example C05_witness :
   let R := run_m witness_ops in
   let Rs := mfold (m_boundary R) ex_follow in
+  let P := match Rs with (_, c) :: _ => c | [] => ∅ end in
   length R = 3 /\ Sim R (run_t witness_ops) /\
   Forall (fun o => o <> OBoundary) ex_follow /\
   vget (m_merge R) [(false, "touch"); (false, "a")]%string = Some (TData "i:3"%string) /\
   vget (m_merge R) [(false, "old"); (false, "a")]%string = None /\
   m_merge_build R = Some (m_merge R) /\
-  (exists P, Rs = (3, P) :: R /\
-     vget ((1, P) :: m_merge R) [(false, "n"); (false, "a")]%string = Some (TData "i:9"%string) /\
-     vget ((1, P) :: m_merge R) [(false, "touch"); (false, "a")]%string = None /\
-     vget ((1, P) :: m_merge R) [(true, "k")]%string = Some (TData "i:1"%string)).
+  length Rs = 4 /\ tail Rs = R /\
+  vget ((1, P) :: m_merge R) [(false, "n"); (false, "a")]%string = Some (TData "i:9"%string) /\
+  vget ((1, P) :: m_merge R) [(false, "touch"); (false, "a")]%string = None /\
+  vget ((1, P) :: m_merge R) [(true, "k")]%string = Some (TData "i:1"%string).
 Proof.
   cbv zeta. split; [by vm_compute|]. split; [apply run_refines|].
   split; [repeat constructor; discriminate|].
   split; [by vm_compute|]. split; [by vm_compute|]. split; [apply build_eq_run|].
-  eexists. split; [vm_compute; reflexivity|]. split; [by vm_compute|]. split; by vm_compute.
+  split; [by vm_compute|].
+  split; [apply (fold_base ex_follow); repeat constructor; discriminate|].
+  split; [by vm_compute|]. split; by vm_compute.
 Qed.
 
 (** A coherent two-file record with a follow-up patch file: premises of [C05_merged_chain]. *)
